@@ -106,6 +106,28 @@ def apply_op(G, op, spec, restricted=True):
         ch = new != ts
         ts[:] = new
         return ch
+    if k == 'rename' and n:
+        # rename one variable everywhere (triples, marker keys, Push markers, top): same number of triples, new variable set
+        vs = sorted({t[0] for t in ts}, key=repr)
+        v = vs[op[1] % len(vs)]
+        new = 'nw%d' % op[2]
+        if new in vs or any(t[2] == new for t in ts):
+            return False
+        ren = lambda x: new if x == v else x
+        for t in ts:
+            t[0] = ren(t[0])
+            if t[1] != ':instance':
+                t[2] = ren(t[2])
+        for e in G['epi']:
+            e[0][0] = ren(e[0][0])
+            if e[0][1] != ':instance':
+                e[0][2] = ren(e[0][2])
+            for mk in e[1]:
+                if mk[0] == 'push' and mk[1] == v:
+                    mk[1] = new
+        if G['top'] == v:
+            G['top'] = new
+        return True
     if k == 'top':
         vs = sorted({t[0] for t in ts}, key=repr)
         if vs:
@@ -201,6 +223,14 @@ def _error_precision(G, reqtop, m, label):
     return []
 
 
+def _encode_outcome(g, m):
+    try:
+        g.variables(); g.edges(); g.attributes()
+        return ('ok', penman.encode(g, model=m, indent=None))
+    except LayoutError:
+        return ('layout-error',)
+
+
 def _label(G):
     return 'Graph(%s, top=%r, epi=%s)' % (short(G['triples'], 240), G['top'], short([e for e in G['epi'] if e[1]], 200))
 
@@ -243,9 +273,20 @@ def check(case):
             return []
         G = _init_graph(case, m)
         free = case.get('free', False)
+        live = _to_graph(G)
+        _encode_outcome(live, m)
         for i, op in enumerate(case['ops']):
             apply_op(G, op, spec, restricted=not free)
             lab = '%s after %d ops %s' % (fmt(node), i + 1, short(case['ops'][:i + 1], 200))
+            # the same edit applied in place to one long-lived Graph object (queried and encoded after every step):
+            # it must behave exactly like a graph built afresh from the edited data
+            fresh = _to_graph(G)
+            live.triples[:] = fresh.triples
+            live.epidata.clear(); live.epidata.update({k: list(v) for k, v in fresh.epidata.items()})
+            live._top = fresh._top
+            a, b = _encode_outcome(live, m), _encode_outcome(fresh, m)
+            if a != b:
+                return [('edited-object-differs-from-fresh-graph', '%s: edited object %s, fresh graph %s' % (lab, short(a, 200), short(b, 200)))]
             f = _error_precision(G, None, m, lab)
             if not f and not free:
                 f = _content_ok(G, spec, m, lab)
@@ -303,7 +344,7 @@ ADD_CONSTS = ['fresh', '"new s"', '7', '-']
 def _op(draw, spec=None):
     i = st.integers(0, 30)
     k = draw(st.sampled_from(['drop', 'drop', 'drop-all', 'push', 'push', 'push', 'pop', 'pop', 'swap', 'swap', 'dup',
-                              'move', 'perm', 'top', 'add-attr', 'add-edge']))
+                              'move', 'perm', 'top', 'add-attr', 'add-edge', 'rename']))
     if k in ('drop', 'dup'):
         return [k, draw(i)]
     if k == 'drop-all':
@@ -318,6 +359,8 @@ def _op(draw, spec=None):
         return [k, fy(draw, list(range(draw(st.integers(2, 12)))))]
     if k == 'top':
         return [k, draw(i)]
+    if k == 'rename':
+        return [k, draw(i), draw(st.integers(0, 3))]
     if k == 'add-attr':
         return [k, draw(i), draw(st.sampled_from(ADD_ROLES)), draw(st.sampled_from(ADD_CONSTS))]
     return ['add-edge', draw(i), draw(st.sampled_from(ADD_ROLES)), draw(i)]
@@ -406,6 +449,9 @@ def _machine(report):
 
         @rule(i=st.integers(0, 30))
         def set_top(self, i): self._do(['top', i])
+
+        @rule(i=st.integers(0, 30), k=st.integers(0, 3))
+        def rename_variable(self, i, k): self._do(['rename', i, k])
 
         @rule(i=st.integers(0, 30), r=st.sampled_from(ADD_ROLES), c=st.sampled_from(ADD_CONSTS))
         def append_attribute(self, i, r, c): self._do(['add-attr', i, r, c])
